@@ -91,10 +91,10 @@ PROPS.update({
             "assumptions": ALG_ASSUME, "claimed": True, "engine": "alg", "category": "translation_validation",
             "level_text": ("Translation validation, not a proof of the Go code: in the pure Lean model `invoke` an Action is a value, so repeatability holds by construction (`C08_history`, `C08_repeatable`) and Context edits are local (`C08_ctx_local_sibling`, `C08_ctx_local_later`, `C08_setenv_visible_beneath`). What decides the property is the history run on the real library: the same Go values are kept alive, invoked repeatedly and interleaved with the actions built from them, and every step must equal (i) the same step repeated, (ii) what the same expression yields when built from scratch with fresh Go values, and the caller's Context must be unchanged afterwards; any trace an invocation leaves shows as a differing step. The pure model is compared too, but a difference between model and library alone is not counted against C08. The store model of DESIGN.md C08 layer (b) is not built."),
             "level_note": ALG_NOTE},
-    "C10": {"modules": ["Carapace.Props.C10"], "ops": [("repeat", {"quick": 1500, "thorough": 60000}), ("entry", {"quick": 1500, "thorough": 40000})], "rule": "expressions that produce equal displays / equal values through Batch, MultiParts, Suffix, plus random trees; each formatted 30 times in-process (Go randomises every map iteration) for one of 7 formats; non-trivial = every case; distinct = distinct input digest",
+    "C10": {"modules": ["Carapace.Props.C10", "Carapace.Props.C10Ranges"], "ops": [("repeat", {"quick": 1500, "thorough": 60000}), ("entry", {"quick": 1500, "thorough": 40000})], "rule": "expressions that produce equal displays / equal values through Batch, MultiParts, Suffix, plus random trees; each formatted 30 times in-process (Go randomises every map iteration) for one of 7 formats; non-trivial = every case; distinct = distinct input digest",
             "assumptions": ALG_ASSUME + ["goroutine scheduling and map iteration seeds are only sampled (30 repetitions per case); fresh-process repetition is not performed in the quick tier"],
             "claimed": True, "engine": "alg",
-            "level_text": ("`C10_sorted_unique`: two sorted arrangements of the same candidates are the same list (for every permutation delivered by map iteration or scheduling and every sorting algorithm) because the order - display text, ties broken by value - is total on candidates with distinct (display, value) (`str_eq_of_not_lt`, `le_antisymm_key`), and `C10_unique_key`: after Unique (a map keyed by value) that condition holds. Runtime part searched, not proved: 30 in-process repetitions per generated case must be byte-identical."),
+            "level_text": ("`C10_map_ranges_covered` (C10Ranges.lean): the inventory of all loops over Go maps in the library (regenerated from /repo on every run: file, function, ranged expression, digest of the loop) is the reviewed one - nineteen loops, each with the reason why the iteration order cannot reach the output (DESIGN 13.5); a new loop over a map or a change inside one breaks the obligation. `C10_sorted_unique`: two sorted arrangements of the same candidates are the same list (for every permutation delivered by map iteration or scheduling and every sorting algorithm) because the order - display text, ties broken by value - is total on candidates with distinct (display, value) (`str_eq_of_not_lt`, `le_antisymm_key`), and `C10_unique_key`: after Unique (a map keyed by value) that condition holds. Runtime part searched, not proved: 30 in-process repetitions per generated case must be byte-identical."),
             "level_note": ALG_NOTE + " The Go runtime's map iteration and scheduler are only sampled."},
 })
 
